@@ -47,6 +47,9 @@ CHECKS = {
  'C10': dict(cat='exploration', tech=SYMX + ' with time as a symbolic variable (z3 LRA)',
    text='Every sequence of up to 3 (quick) / 4 (thorough) statements (timed delay, zero delay, time-of-day wait) runs on the real Clock with symbolic start instant, delay values, work before each statement, tick length and tick phase; z3 shows on every path that the k-th delay never ends before origin + sum of delays, ends within one tick when the script was not late, returns at once without accumulating lateness when late, that a zero delay never blocks, and that the time line restarts at the return of a time-of-day wait. Five scripts on the real VM bound to the real Clock (logical and raw units, and-lists, loops, unit switch) with symbolic time registers and transmission times: every command is sent within the window its delays allow.',
    note='Clock thread modelled sequentially (Event.wait returns at the next tick); at most 4 ticks per delay; interleavings with the clock thread are not covered here. time/threading/datetime in bardolph.lib.clock are stubs.', ref='4/C10'),
+ 'C06': dict(cat='exploration', tech='symbolic token stream (lazy choice variables, depth-first exhaustive) through the real parser, loader and VM; z3 regex lemma for lexer totality',
+   text='After a fixed preamble (macro, string macro, variable, function, routine) every sequence of 3 tokens (quick; 5 in thorough, plus 1200 seeded 4-token families in quick) over a 92-word alphabet (all keywords, registers, names, literals, time patterns, operators/brackets, comment, garbage, internal token-class names, case variants) is compiled: no exception, accept or rejection with a line-numbered message, no acceptance before all tokens are read, accepted programs load and run without an internal fault. 30 documented rule breakers in 4 contexts are rejected and leave the job without a program. Token deletion/duplication/swap/truncation/replacement at every position of 12 valid scripts. z3 lemma: every non-blank ASCII string is covered by the lexer\'s last alternative.',
+   note='Tokens are drawn lazily (one path covers all continuations after the parser stops reading). Script-level run-time errors (division by zero, type confusion of script values) are not counted as internal faults. Inputs longer than the bound and non-ASCII bytes are outside.', ref='4/C06'),
 }
 PENDING = {
 }
